@@ -1188,7 +1188,8 @@ def c12(chk, tier):
         ses.close()
     chk.cov["exhaustive"] = True
     chk.cov["rule"] = ("4 KEMs x {public, private, encapsulated key} + 4 tag types: size(), from_bytes(to_bytes(v)), write_exact "
-                       "into every buffer length 0..2*size+2, from_bytes of every input length 0..2*size+2, raw 32-byte X25519 "
+                       "into every buffer length 0..2*size+2, from_bytes of every input length 0..2*size+2 (both also at size + 256, "
+                       "+ 512, + 768, + 65536, + 131072: wrong lengths that look right after a truncating cast), raw 32-byte X25519 "
                        "strings, accepted NIST encodings; distinct = distinct (call, type, algorithm, length/arguments)")
 
 
@@ -1196,7 +1197,7 @@ def c12(chk, tier):
 def c15(chk, tier):
     thorough = tier == "thorough"
     chk.assumptions += [
-        "constructor: decision table over length pairs {0,1,2,31,32,33,64,1000}^2",
+        "constructor: decision table over length pairs {0,1,2,31,32,33,64,255,256,257,512,1000,65535,65536,70000}^2",
         "wiring: the observed export of a Psk/AuthPsk (and Base/Auth) context is compared with the oracle's value for the "
         "RFC wiring and for each mis-wiring hypothesis (psk and psk_id swapped, one of them dropped or duplicated, "
         "non-empty defaults); only a positive match with a mis-wiring is a C15 violation, a match with nothing is "
